@@ -46,6 +46,9 @@ def run_mode(ck, build, kinds, rulemap, helper_fns=True, floor_obl=300):
 def run_pairs(ck, mod, kinds, rulemap, label="H/N0", sizes=("128", "192", "256")):
     """relational encrypt-vs-decrypt obligations (C01 / C08)"""
     n = 0
+    if "SETUPFN" in rulemap or "SETUPSENS" in rulemap:
+        for ks in sizes:
+            n += aeadlib.check_setup_function(ck, mod, ks, label, rulemap)
     for kind in kinds:
         for ks in sizes:
             n += duallib.check_pair(ck, mod, ks, kind, label, rulemap)
@@ -62,7 +65,7 @@ def fixture_control(ck, build, kinds, rulemap, fixture, wants, pair_rulemap=None
             sub.bad("BROKEN", f.name, "broken", str(e))
     if pair_rulemap:
         try:
-            run_pairs(sub, fx, kinds, pair_rulemap, "fixture", sizes=("128",))
+            run_pairs(sub, fx, kinds, {k_: v_ for k_, v_ in pair_rulemap.items() if not k_.startswith("SETUP")}, "fixture", sizes=("128",))
         except Broken as e:
             sub.bad("BROKEN", fixture, "broken", str(e))
     got = {v["rule"] for v in sub.violations}
